@@ -916,6 +916,11 @@ func c14Tmpl(t []rune, args []zn.V, how int, ora c14Ora) (*mc.Failure, bool, err
 		} else {
 			o = c14Real(src, in)
 		}
+		// formatting reads its arguments: the caller's list is what it was
+		if before, after := zn.CanonElem(zn.ToElem(&zn.LV{Items: args})), zn.CanonElem(in["A"]); o.panic == "" && before != after {
+			return &mc.Failure{Kind: "mismatch", Bucket: "tmpl:arguments-changed", Case: mc.J(c14Case{Mode: "tmpl", Template: tmpl, Args: c14EncArgs(args), PreParse: how == c14ViaPreParse, Source: src}),
+				Expected: "the argument list is unchanged after T % A: " + before, Observed: after}, false, nil
+		}
 	}
 	cs := func() json.RawMessage {
 		return mc.J(c14Case{Mode: "tmpl", Template: tmpl, Args: c14EncArgs(args), Literal: how == c14ViaLiteral, PreParse: how == c14ViaPreParse, Source: src})
@@ -1004,6 +1009,11 @@ func c14ArgLists(p int) [][]zn.V {
 			}
 			out = append(out, l)
 		}
+	}
+	// ... and the first (shortest) list once more, after the fitting and the longer ones: whatever
+	// a successful formatting of the template left behind, too few arguments are still an error
+	if len(out) > 1 && len(out[0]) < p {
+		out = append(out, append([]zn.V{}, out[0]...))
 	}
 	return out
 }
